@@ -384,7 +384,8 @@ func genElem(t *rapid.T, depth int, budget *int) Elem {
 		for i := 0; i < n; i++ {
 			cs = append(cs, rapid.SampledFrom(Classes).Draw(t, "ecls"))
 		}
-		e.Attrs = map[string]string{"class": strings.Join(cs, rapid.SampledFrom([]string{" ", "  ", "\t"}).Draw(t, "clssep"))}
+		// (the last five are no white space for a class list: the names they join are one class)
+		e.Attrs = map[string]string{"class": strings.Join(cs, rapid.SampledFrom([]string{" ", " ", "  ", "\t", "\n", "\f", "\u00a0", "\v", "\u0085", "\u3000", "\u2003"}).Draw(t, "clssep"))}
 	}
 	if rapid.IntRange(0, 2).Draw(t, "hasid") == 0 {
 		if e.Attrs == nil {
